@@ -294,6 +294,8 @@ def index_lambda_to_high_level_op(expr: IndexLambda) -> HighLevelOp:
                         p.Sum | p.Product | p.LogicalAnd | p.LogicalOr | p.BitwiseOr
                             | p.BitwiseAnd | p.BitwiseXor):
             children = inner_expr.children
+            if len(children) != 2:
+                raise UnknownIndexLambdaExpr
             bin_op = _SIMPLE_PYMBOLIC_BINARY_OP_MAP[type(inner_expr)]
         elif isinstance(inner_expr, p.Comparison):
             children = (inner_expr.left, inner_expr.right)
